@@ -33,7 +33,8 @@ PrimCand(p) ==
     [] p = "object"  -> {VObj(<<>>), VObj(<<P("a", VNum("1"))>>), VDate("0"), VArr(<<>>), VFn, VStr("a"), VNull}
 
 NearMiss(v) ==
-  CASE v.k = "str"  -> {VStr(v.s \o "x"), VStr(""), VNum("1"), VNull}
+  \* hostile strings: names of Object.prototype members (discriminator values, keys)
+  CASE v.k = "str"  -> {VStr(v.s \o "x"), VStr(""), VNum("1"), VNull, VStr("constructor"), VStr("__proto__"), VStr("toString")}
     [] v.k = "num"  -> {VNum(IF v.n = "1" THEN "2" ELSE "1"), VStr(v.n), VNull, VBool(TRUE)}
     [] v.k = "bool" -> {VBool(~v.b), VNum(IF v.b THEN "1" ELSE "0"), VStr(IF v.b THEN "true" ELSE "false"), VUndef}
     [] OTHER -> {VNull}
@@ -152,5 +153,25 @@ CommonPool ==
     VMap(<<E(VStr("a"), VNum("1"))>>), VMap(<<E(VNum("1"), VStr("a"))>>), VSet(<<VNum("1")>>), VSet(<<VStr("a")>>),
     VTa("Uint8Array", <<1>>), VTa("Float64Array", <<1>>), VStr("true"), VStr("1px"), VStr("a.b"), VStr("a-b"), VStr("abc"), VStr("ac") }
 
-Probe(T, env, fuel, cap) == Take(Cand(T, env, fuel), cap) \cup AtomPool
+\* Hostile probes are never subject to the cap: objects whose string-literal-typed properties (discriminators) carry the
+\* names of Object.prototype members, at any depth (C03: "discriminator values __proto__, constructor, toString").
+HostileStrs == {"constructor", "__proto__", "toString", "hasOwnProperty"}
+HasStrLit(ty, env) == \E b \in Branches(ty, env) : b.t = "lit" /\ b.v.k = "str"
+RECURSIVE Hostile(_, _, _)
+Hostile(T, env, f) ==
+  CASE T.t = "obj" ->
+         LET n == Len(T.ps)
+             mem(i) == Members(T.ps[i].ty, env, f)
+             base == IF \A i \in 1..n : mem(i) # {} THEN {[i \in 1..n |-> P(T.ps[i].key, CHOOSE m \in mem(i) : TRUE)]} ELSE {}
+         IN UNION { UNION { (IF HasStrLit(T.ps[i].ty, env) THEN { VObj(SetAt(b, i, P(T.ps[i].key, VStr(h)))) : h \in HostileStrs } ELSE {})
+                            \cup { VObj(SetAt(b, i, P(T.ps[i].key, hv))) : hv \in Hostile(T.ps[i].ty, env, f) }
+                          : i \in 1..n } : b \in base }
+    [] T.t = "union" -> UNION {Hostile(T.ms[i], env, f) : i \in DOMAIN T.ms}
+    [] T.t = "inter" -> UNION {Hostile(b, env, f) : b \in Branches(T, env)}
+    [] T.t = "arr"   -> {VArr(<<h>>) : h \in Hostile(T.e, env, f)}
+    [] T.t = "ref"   -> IF f = 0 THEN {} ELSE Hostile(Lookup(env, T.n), env, f - 1)
+    [] T.t = "deco"  -> Hostile(T.a, env, f)
+    [] OTHER -> {}
+
+Probe(T, env, fuel, cap) == Take(Cand(T, env, fuel), cap) \cup AtomPool \cup Take(Hostile(T, env, fuel), 16)
 =============================================================================
